@@ -97,6 +97,8 @@ def drive2(pid, tier, seed, only, res, spec, rnd, prog, kinds, lmax, scripts, kn
     nval = validate(prog, kinds, summaries, res, rnd, pool)
     res['validated'] = nval
 
+    if os.environ.get('VERIF_M_WARM'):
+        return        # setup.sh: only fill the per-MIR-hash exploration / validation caches
     results = []
     # ---- modular obligations (run in this process)
     if spec.get('modular'):
@@ -129,7 +131,18 @@ def drive2(pid, tier, seed, only, res, spec, rnd, prog, kinds, lmax, scripts, kn
 
     # ---- collect
     by_ob = {}
+    wit = {}
     for r in results:
+        if r['status'] in ('wit_ok', 'wit_fail'):
+            res['queries'] += 1
+            res['solver_s'] += r.get('solver_s', 0.0)
+            g = wit.setdefault(r['witness_group'], {'ok': 0, 'fail': 0, 'input': None})
+            if r['status'] == 'wit_ok':
+                g['ok'] += 1
+                g['input'] = g['input'] or r.get('input')
+            else:
+                g['fail'] += 1
+            continue
         o = by_ob.setdefault(r['task'][0], {'engine': 'M', 'obligation': r['task'][0], 'queries': 0, 'unsat': 0, 'sat': 0, 'solver_s': 0.0, 'status': 'pass'})
         o['queries'] += 1
         o['solver_s'] += r.get('solver_s', 0.0)
@@ -142,8 +155,15 @@ def drive2(pid, tier, seed, only, res, spec, rnd, prog, kinds, lmax, scripts, kn
         else:
             o['status'] = 'inconclusive'
             res['inconclusive'].append('obligation %s on %s path %s: %s %s' % (r['label'], r['task'][1], r['task'][2], r['status'], r.get('detail', '')[:300]))
+    # vacuity guard: every witness group must be inhabited
+    res['vacuity_witnesses'] = []
+    for gname, g in sorted(wit.items()):
+        res['vacuity_witnesses'].append({'class': gname, 'satisfied_on_paths': g['ok'], 'example_input': g['input']})
+        if g['ok'] == 0:
+            res['inconclusive'].append('vacuity guard: no path witnesses `%s`' % gname)
     # replay sat results
     sat = [r for r in results if r['status'] == 'sat']
+    results = [r for r in results if r['status'] not in ('wit_ok', 'wit_fail')]
     handle_counterexamples(pid, sat, res, by_ob)
     for o in by_ob.values():
         o['solver_s'] = round(o['solver_s'], 2)
